@@ -216,7 +216,8 @@ struct GenOpts {
     bool big_payloads;        // occasionally large payloads
     int fixed_len;            // >=0: all containers get exactly this many elements
     bool populate_inactive;   // also fill inactive variant members (C14)
-    GenOpts() : stale_lengths(false), big_payloads(false), fixed_len(-1), populate_inactive(false) {}
+    size_t max_len;           // hard cap on container elements (keeps tiny-container sessions tractable)
+    GenOpts() : stale_lengths(false), big_payloads(false), fixed_len(-1), populate_inactive(false), max_len((size_t)-1) {}
 };
 
 inline uint64_t boundary_value(Rng & r, size_t size) {
@@ -256,6 +257,7 @@ inline size_t pick_len(Rng & r, const GenOpts & g, size_t cap) {
         } else n = r.below(3000);
     }
     if (n > cap) n = cap;
+    if (n > g.max_len) n = g.max_len;
     return n;
 }
 
